@@ -1,5 +1,64 @@
-(* C13 - statements are being added as Proofs/ExecFacts.v grows *)
-From Coq Require Import List.
-From JugV Require Import Model.Deps Model.Exec Model.ExecCase.
-Theorem C13_placeholder : True. Proof. exact I. Qed.
-Print Assumptions C13_placeholder.
+(* C13 - after a hard crash, completed work survives and the computation can be finished.
+   Statements only; every proof is [exact <lemma>].  Vocabulary: see Props/C02.v and C01.v.
+   [ECrash w] = worker w is killed without warning at any point; [ERemoveLocks] = `jug cleanup --locks-only`.
+   That a dump is atomic under a kill (before the rename = not stored, after = stored) is C05. *)
+From Coq Require Import List Bool PArith Arith.
+From JugV Require Import Model.MapReduce Model.Slice Model.Deps Model.Exec Model.ExecCase Model.ExecExample
+  Proofs.ExecFacts Proofs.ExecProgFacts Proofs.ExecTheorems.
+Import ListNotations.
+
+(* a crash - possible in every state of a live worker - changes nothing but the crashed worker:
+   every result, every lock (the only residue: the locks it held) and every other worker are as before *)
+Theorem C13_crash_changes_only_the_crashed_worker : forall (V : Type) (C : cfg V) (s s' : st V) w,
+  step C s (ECrash w) = Some s' ->
+  results s' = results s /\ locks s' = locks s /\ w_pc (ws s' w) = PDead /\ (forall w', w' <> w -> ws s' w' = ws s w').
+Proof. exact (@crash_effect). Qed.
+Print Assumptions C13_crash_changes_only_the_crashed_worker.
+
+(* the dead worker never acts again, so its locks stay where they are: survivors skip those tasks *)
+Theorem C13_dead_worker_is_silent : forall (V : Type) (C : cfg V) (s s' : st V) e w,
+  live (w_pc (ws s w)) = false -> step C s e = Some s' -> actor e <> Some w /\ ws s' w = ws s w.
+Proof. exact (fun V C s s' e w Hl H => conj (dead_is_silent C s s' e w Hl H) (dead_stays C s s' e w Hl H)). Qed.
+Print Assumptions C13_dead_worker_is_silent.
+
+(* everything that was stored stays stored, unchanged, and is the sequential value - crashes in the
+   trace or not (results are write-once; C01 (a) puts no restriction on the events) *)
+Theorem C13_completed_work_survives : forall (V : Type) (C : cfg V), framed C ->
+  forall r0 tr s tr' s' t, reach C r0 tr s -> results s t <> None -> run C s tr' = Some s' ->
+    (forall w, step C s (EStart w t) = None) /\ execs s' t = execs s t /\ results s' t = results s t.
+Proof. exact (@not_started_once_stored). Qed.
+Print Assumptions C13_completed_work_survives.
+
+(* stale locks can be removed as soon as every lock holder is dead; that frees every lock and
+   touches no result and no worker *)
+Theorem C13_stale_locks_can_be_removed : forall (V : Type) (C : cfg V) (s : st V), Inv C s ->
+  (forall t w, locks s t = LHeld w -> live (w_pc (ws s w)) = false) ->
+  exists s', step C s ERemoveLocks = Some s' /\ results s' = results s /\ (forall t, locks s' t = LFree) /\ ws s' = ws s.
+Proof. exact (@remove_locks_effect). Qed.
+Print Assumptions C13_stale_locks_can_be_removed.
+
+(* after that a fresh execute (new workers F; everybody else dead or gone) completes the whole
+   computation - and by C13_completed_work_survives without re-running anything that was complete *)
+Theorem C13_fresh_execute_completes : forall (V : Type) (C : cfg V), framed C ->
+  forall rank, ranked C rank -> closed C ->
+  forall r0 tr s (F : wid -> bool) tr' s', reach C r0 tr s ->
+    (forall t w, locks s t <> LHeld w) ->
+    (forall w, F w = true -> ws s w = fresh_w) ->
+    (forall w, F w = false -> live (w_pc (ws s w)) = false) ->
+    forallb (okev C) tr' = true -> run C s tr' = Some s' ->
+    quiescent F s' -> (exists w c, F w = true /\ w_pc (ws s' w) = PDone c) ->
+    forall t, In t (c_tasks C) -> (results s' t <> None <-> ~ doomed C (results s') t).
+Proof. exact (@later_execute_completes). Qed.
+Print Assumptions C13_fresh_execute_completes.
+
+(* non-vacuity: worker 0 is killed inside f1; worker 1 skips the locked task and leaves; the lock of t1
+   is still held by the dead worker and a new worker cannot take it; after the stale locks are removed
+   worker 2 completes everything *)
+Example C13_nonvacuous :
+  (exists s, run (prog_cfg ex_prog) (init (st_of [])) ex_trace_crash = Some s /\
+             locks s 1%positive = LHeld 0 /\ w_pc (ws s 0) = PDead /\ w_pc (ws s 1) = PDone 0 /\
+             step (prog_cfg ex_prog) s (ELock 2 1%positive true) = None) /\
+  (exists s, run (prog_cfg ex_prog) (init (st_of [])) (ex_trace_crash ++ [ERemoveLocks] ++ ex_trace_finish 2) = Some s /\
+             map (results s) [1; 2; 3]%positive = [Some ex_v1; Some ex_v2; Some ex_v3] /\
+             map (execs s) [1; 2; 3]%positive = [2; 1; 1] /\ w_pc (ws s 2) = PDone 0).
+Proof. split; eexists; vm_compute; repeat split; reflexivity. Qed.
